@@ -81,6 +81,9 @@ func goTyX(e ast.Expr) gty {
 		}
 		return gty("func:" + strings.Join(ps, ",") + "->" + strings.Join(rs, ","))
 	case *ast.StarExpr:
+		if id, ok := x.X.(*ast.Ident); ok && id.Name == "testError" && emMode {
+			return "errc" // what findBug looks at in an error: nil, invalid data, anything else
+		}
 		if id, ok := x.X.(*ast.Ident); ok && knownStructs[id.Name] != nil {
 			return gty(id.Name) // pointers to structs are objects whose fields are variables
 		}
@@ -97,6 +100,8 @@ func leanTyX(t gty) string {
 		return "(List " + leanTyX(gty(s[2:])) + ")"
 	case s == "str":
 		return "String"
+	case s == "errc":
+		return "Go.ErrC"
 	case knownStructs[s] != nil:
 		return s
 	case strings.HasPrefix(s, "func:"):
@@ -106,7 +111,7 @@ func leanTyX(t gty) string {
 			out = append(out, leanTyX(gty(p)))
 		}
 		if smMode {
-			out = append(out, "Go.SM "+leanTyX(gty(parts[1])))
+			out = append(out, smMonad+" "+leanTyX(gty(parts[1])))
 		} else {
 			out = append(out, leanTyX(gty(parts[1])))
 		}
@@ -153,6 +158,7 @@ type imp struct {
 	idxTmp   map[ast.Node]string
 	idxTy    map[ast.Node]gty
 	pureSigs map[string][]sfield // pure-mode methods (jsf64ctx.rand): their receiver fields in order
+	em       bool                // engine mode (findBug): Go.EM — a script mode with the requests init / checkOnce / early
 	sm       bool                // script mode (shrink.go's shrinker): reads of s.rec / s.shrinks and s.accept are effects (Go.SM)
 }
 
@@ -436,6 +442,9 @@ func (m *imp) hoistCalls(e ast.Expr) []string {
 
 // expr: the pure part (index/slice expressions have been hoisted)
 func (m *imp) expr(e ast.Expr, want gty) (string, gty) {
+	if tmp, ok := m.idxTmp[e]; ok && m.sm {
+		return tmp, m.idxTy[e] // an effect that was bound to a name before
+	}
 	if v, ok := m.t.constVal(e); ok {
 		if want == "" {
 			return v.String(), ""
@@ -599,6 +608,16 @@ func (m *imp) expr(e ast.Expr, want gty) (string, gty) {
 	if id, ok := e.(*ast.Ident); ok && (id.Name == "true" || id.Name == "false") {
 		return id.Name, "bool"
 	}
+	if id, ok := e.(*ast.Ident); ok && id.Name == "nil" && m.em {
+		return "Go.ErrC.none", "errc"
+	}
+	if c, ok := e.(*ast.CallExpr); ok && m.em {
+		if sel, ok := c.Fun.(*ast.SelectorExpr); ok && sel.Sel.Name == "isInvalidData" && len(c.Args) == 0 {
+			if s, ty := m.expr(sel.X, ""); ty == "errc" {
+				return "(Go.ErrC.isInvalid " + s + ")", "bool"
+			}
+		}
+	}
 	if sel, ok := e.(*ast.SelectorExpr); ok {
 		if s, ok := mathConsts[exprText(m.p.fset, sel)]; ok && want != "" {
 			return "(" + s + " : " + leanTyX(want) + ")", want
@@ -756,7 +775,7 @@ func (m *imp) cond(e ast.Expr) (code string, pure bool) {
 		}
 		fn := map[token.Token]string{token.LAND: "Go.andThen", token.LOR: "Go.orElse"}[b.Op]
 		if m.sm {
-			fn = map[token.Token]string{token.LAND: "Go.SM.andThen", token.LOR: "Go.SM.orElse"}[b.Op]
+			fn = map[token.Token]string{token.LAND: m.mon() + ".andThen", token.LOR: m.mon() + ".orElse"}[b.Op]
 		}
 		return "(" + fn + " " + l + " " + r + ")", false
 	}
@@ -976,6 +995,9 @@ func (m *imp) block(list []ast.Stmt, c ictx) string {
 		}
 		return strings.Join(pre, "\n  ") + "\n  " + s
 	}
+	if m.em && m.emSkip(list[0]) {
+		return rest()
+	}
 	switch s := list[0].(type) {
 	case *ast.ReturnStmt:
 		var pre []string
@@ -999,6 +1021,19 @@ func (m *imp) block(list []ast.Stmt, c ictx) string {
 		var lets []string
 		for _, sp := range gd.Specs {
 			vs := sp.(*ast.ValueSpec)
+			if m.em {
+				// `var ( r = …; t = …; valid = 0 )`: integer counters are kept, the stream and the T are the oracle's
+				for i, n := range vs.Names {
+					if i < len(vs.Values) {
+						if _, isConst := m.t.constVal(vs.Values[i]); isConst {
+							e, _ := m.expr(vs.Values[i], "i64")
+							m.t.env[n.Name] = "i64"
+							lets = append(lets, fmt.Sprintf("let %s : Int64 := %s", n.Name, e))
+						}
+					}
+				}
+				continue
+			}
 			if len(vs.Values) != 0 {
 				panic("translate: var with initialiser")
 			}
@@ -1060,6 +1095,10 @@ func (m *imp) block(list []ast.Stmt, c ictx) string {
 		}
 		if m.sm && fn == m.recv+".debugf" {
 			return rest() // logging only
+		}
+		if m.em && fn == "r.init" && len(call.Args) == 1 {
+			a, _ := m.expr(call.Args[0], "u64")
+			return fmt.Sprintf("(Go.EM.init %s) >>= fun _ =>\n  %s", a, rest())
 		}
 		if code, names, ok := m.methodCall(call, nil); ok {
 			return m.bindTuple(names, code, rest())
@@ -1689,7 +1728,8 @@ func (t *trans) impFunctionMode(key string, sigs map[string]*isig, sm bool, suff
 	fxMode = false
 	smMode = sm
 	defer func() { smMode = false; smPartial = nil }()
-	m := &imp{t: t, p: t.p, key: key + suffix, sigs: sigs, objs: map[string]string{}, callTmp: map[*ast.CallExpr]string{}, idxTmp: map[ast.Node]string{}, idxTy: map[ast.Node]gty{}, pureSigs: t.pureMethodFields, sm: sm}
+	m := &imp{t: t, p: t.p, key: key + suffix, sigs: sigs, objs: map[string]string{}, callTmp: map[*ast.CallExpr]string{}, idxTmp: map[ast.Node]string{}, idxTy: map[ast.Node]gty{}, pureSigs: t.pureMethodFields, sm: sm, em: emMode}
+	smMonad = m.mon()
 	if sm {
 		smPartial = m.smEffect
 	}
@@ -1729,6 +1769,11 @@ func (t *trans) impFunctionMode(key string, sigs map[string]*isig, sm bool, suff
 		for _, n := range f.Names {
 			if sm && exprText(t.p.fset, f.Type) == "time.Time" {
 				dropped = true // the deadline: it never expires here
+				argPos++
+				continue
+			}
+			if _, isFn := f.Type.(*ast.FuncType); emMode && (exprText(t.p.fset, f.Type) == "tb" || isFn) {
+				dropped = true // the testing.TB and the property belong to the oracle
 				argPos++
 				continue
 			}
